@@ -13,7 +13,7 @@ RULE = ("finite matrix worker class {sync,gthread,gevent,eventlet} x phase of a 
         "partly sent, application running (gate file), response partly written, keep-alive idle} x application {finishes 0.3 s after the "
         "signal, overruns graceful_timeout, never finishes} x signal {TERM, INT, QUIT} x bind {tcp, unix} (plus the history 'one HUP before the signal' for every class x signal x bind, and two-listener servers with the request on either listener), each with a real master + "
         "worker started from the working tree, graceful_timeout=4, plus a seeded sub-second jitter before the signal (thorough: the "
-        "whole matrix; quick: a seeded slice of 72 cells). Oracle: TERM and a request a worker had started reading and an application "
+        "whole matrix; quick: a seeded slice of up to 96 cells). Oracle: TERM and a request a worker had started reading and an application "
         "finishing in time => complete response (independent response reader); master exit status 0 within graceful_timeout+4 s (INT/"
         "QUIT: within 4 s); afterwards no process of the master's session alive, listener not connectable, pid file and unix socket file "
         "gone. (K) the real Arbiter.run() on C03's simulated kernel: pool 1-4 x history of worker deaths / workers on their way out / "
@@ -45,6 +45,12 @@ def matrix():
     # two listeners: the request in flight is on one of them, the other is idle
     for kind, phase, which in itertools.product(KINDS, ["app-running", "response-partial", "head-partial"], [0, 1]):
         yield {"kind": kind, "phase": phase, "app": "finish", "sig": "TERM", "bind": "unix", "two_binds": which}
+    # non-default listener set-up: SO_REUSEPORT
+    for kind, sig in itertools.product(KINDS, SIGS):
+        yield {"kind": kind, "phase": "app-running" if sig == "TERM" else "idle", "app": "finish", "sig": sig, "bind": "tcp", "reuse_port": True}
+    # a TCP listener in front of a unix one (the position of the unix listener in the list must not matter for its clean-up)
+    for kind, sig in itertools.product(KINDS, SIGS):
+        yield {"kind": kind, "phase": "app-running" if sig == "TERM" else "idle", "app": "finish", "sig": sig, "bind": "tcp", "two_binds": 0}
     # histories: a busy worker is retired (TTOU with 2 workers, both inside a request that never ends) before the shutdown signal
     for kind, sig in itertools.product(KINDS, SIGS):
         yield {"kind": kind, "phase": "idle", "app": "finish", "sig": sig, "bind": "unix", "prelude": "retire-busy"}
@@ -63,20 +69,20 @@ def extra_cases(tier, seed, shard, nshards):
         picked = []
         seen = set()
         for c in cells:
-            k = (c["kind"], c["phase"], "TERM" if c["sig"] == "TERM" else "quick", c.get("prelude"), c.get("two_binds") is not None)
+            k = (c["kind"], c["phase"], "TERM" if c["sig"] == "TERM" else "quick", c.get("prelude"), c.get("two_binds") is not None, c["bind"] if c.get("two_binds") is not None else None, bool(c.get("reuse_port")))
             if k not in seen or (c["app"] == "finish" and c["sig"] == "TERM" and (c["kind"], c["phase"], "f") not in seen):
                 seen.add(k)
                 if c["app"] == "finish" and c["sig"] == "TERM":
                     seen.add((c["kind"], c["phase"], "f"))
                 picked.append(c)
-        cells = picked[:72]
+        cells = picked[:96]
     for i, c in enumerate(cells):
         if i % nshards == shard:
             j = int(hashlib.sha1(("%d-%d" % (seed, i)).encode()).hexdigest()[:4], 16) / 65535.0
             yield dict(c, jitter=round(0.05 + 0.4 * j, 3))
 
 
-EXHAUSTIVE_NOTE = "thorough tier enumerates all %d cells of the matrix; quick a seeded slice of 72" % len(list(matrix()))
+EXHAUSTIVE_NOTE = "thorough tier enumerates all %d cells of the matrix; quick a seeded slice of up to 96" % len(list(matrix()))
 
 
 def strategy(tier):
@@ -167,7 +173,7 @@ def run_case(case):
     signum = getattr(signal, "SIG" + sig)
     classes = ["kind:" + kind, "phase:" + phase, "app:" + app, "sig:" + sig, "bind:" + bind]
     srv = renv.Server(kind=kind, workers=2 if case.get("prelude") == "retire-busy" else 1, bind=bind, graceful=G, timeout=30,
-                      threads=2 if kind == "gthread" else None, keepalive=8)
+                      threads=2 if kind == "gthread" else None, keepalive=8, extra=["--reuse-port"] if case.get("reuse_port") else ())
     if case.get("two_binds") is not None:
         srv.cleanup()
         import os as _os
@@ -357,7 +363,7 @@ def run_case(case):
                 V("socket-file-removed", "unix-socket-file-left-behind:second-listener", None, "removed")
                 os.unlink(srv.second)
         return Outcome(vio, in_flight, classes + ["exit:%s" % status, "elapsed:%d" % int(elapsed)],
-                       key="|".join("%s" % case.get(k) for k in ("kind", "phase", "app", "sig", "bind", "prelude", "two_binds")),
+                       key="|".join("%s" % case.get(k) for k in ("kind", "phase", "app", "sig", "bind", "prelude", "two_binds", "reuse_port")),
                        sample={"case": case, "elapsed": round(elapsed, 2), "status": status, "response_head": data[:80]})
     finally:
         srv.cleanup()
